@@ -157,6 +157,27 @@ theorem reqmem_within_limit {size ops s evs} (hsz : 0 ≤ size) (h : SReach size
   refine ⟨hi.acct, ?_, by rw [← hs]; exact hi.limit, hs, hp⟩
   rw [hi.acct]; exact sumHeld_nonneg hi.heldPos
 
+theorem sumHeld_ge_length_mul {l : List (Nat × Int)} {b : Int} (h : ∀ x ∈ l, b ≤ x.2) : (l.length : Int) * b ≤ sumHeld l := by
+  induction l with
+  | nil => simp [sumHeld]
+  | cons x t ih =>
+    obtain ⟨i, n⟩ := x
+    have h1 := h (i, n) (by simp)
+    have h2 := ih (fun y hy => h y (by simp [hy]))
+    simp only [List.length_cons, sumHeld]
+    have : ((t.length + 1 : Nat) : Int) * b = (t.length : Int) * b + b := by
+      rw [Int.natCast_add, Int.add_mul]; simp
+    simp only at h1
+    omega
+
+/-- the request-memory limit also bounds the *number* of admitted requests: if every admitted request accounts at
+least `b` bytes (`requestBufTake ≥ RequestBufSize`), at most `size / b` requests are admitted at any time -/
+theorem admitted_requests_bounded {size ops s evs} {b : Int} (hsz : 0 ≤ size) (h : SReach size ops s evs)
+    (hb : ∀ x ∈ s.held, b ≤ x.2) : (s.held.length : Int) * b ≤ size := by
+  obtain ⟨h1, -, h3, -⟩ := reqmem_within_limit hsz h
+  have := sumHeld_ge_length_mul hb
+  omega
+
 /-- a request is admitted (fast path) only if it fits under the limit together with everything accounted,
 and only if nobody is queued before it -/
 theorem admitted_only_if_fits {s : Sem} {id : Nat} {n : Int} :
